@@ -205,6 +205,61 @@ def build_item(spec: dict, sections: dict, substs: list, defines: set, log: list
             if key[0] in ('loop', 'loop_body', 'before_loop', 'after_loop') and key[1] >= len(it.loops):
                 raise LostAnchor(f'{where}: no loop #{key[1]} (source has {len(it.loops)})')
         body_open = toks[it.open_tok]
+        # ---- //@names: annotation identifiers follow the CURRENT names of parameters / let-bound locals (by ordinal),
+        #      so that renaming a local or a parameter in /repo does not detach the annotations
+        if ('names',) in sections:
+            lets = []
+            for j in range(it.open_tok + 1, it.close_tok):
+                if toks[j].kind == 'ident' and toks[j].text == 'let':
+                    k = j + 1
+                    if toks[k].text == 'mut':
+                        k += 1
+                    if toks[k].kind == 'ident' and toks[k + 1].text in ('=', ':', ';'):
+                        lets.append(toks[k].text)
+            params = []
+            pj = it.name_tok + 1
+            while toks[pj].text != '(':
+                pj += 1
+            pend = rsx.match_close(toks, pj)
+            depth = 0
+            start_of_param = True
+            for j in range(pj + 1, pend):
+                t = toks[j]
+                if t.text in ('(', '[', '<'):
+                    depth += 1
+                elif t.text in (')', ']', '>'):
+                    depth -= 1
+                elif t.text == ',' and depth == 0:
+                    start_of_param = True
+                    continue
+                if start_of_param and t.kind == 'ident' and t.text not in ('mut', 'ref'):
+                    if toks[j + 1].text == ':':
+                        params.append(t.text)
+                        start_of_param = False
+                    elif t.text == 'self':
+                        start_of_param = False
+            ren = {'contract': {}, 'body': {}}
+            for tname, ref in sections[('names',)].items():
+                scope = None
+                if '@' in tname:
+                    tname, scope = tname.split('@')
+                m = re.match(r'(let|param)(\d+)$', ref)
+                pool = lets if m and m.group(1) == 'let' else params
+                if not m or int(m.group(2)) >= len(pool):
+                    raise LostAnchor(f'{where}: //@names {tname}={ref}: no such binding ({len(lets)} lets, {len(params)} params)')
+                cur_name = pool[int(m.group(2))]
+                if cur_name != tname:
+                    for sc in ([scope] if scope else ['contract', 'body']):
+                        ren[sc][tname] = cur_name
+            for sc, mp in ren.items():
+                if not mp:
+                    continue
+                pat = re.compile(r'\b(' + '|'.join(re.escape(k) for k in mp) + r')\b')
+                for key in list(sections.keys()):
+                    is_contract = key[0] == 'contract'
+                    if key[0] in ('contract', 'prelude', 'tail', 'loop', 'loop_body', 'before_loop', 'after_loop') and (is_contract == (sc == 'contract')):
+                        sections[key] = pat.sub(lambda mm: mp[mm.group(1)], sections[key])
+                applied.append(f'names {where}: annotation identifiers ({sc}) renamed to the current source names: ' + ', '.join(f'{a}->{b}' for a, b in mp.items()))
         # ---- name the return value
         ret = spec.get('ret')
         # tokens of signature
@@ -648,6 +703,13 @@ def assemble(template: str, defines: set | None = None) -> Assembled:
                 m = re.match(r'//@(loop|loop_body|before_loop|after_loop)\s+(\d+)\s*$', s2)
                 if m:
                     cur = (m.group(1), int(m.group(2))); sections[cur] = ''
+                    continue
+                m = re.match(r'//@names\s+(.+?)\s*$', s2)
+                if m:
+                    sections.setdefault(('names',), {})
+                    for part in m.group(1).split():
+                        a, b = part.split('=')
+                        sections[('names',)][a] = b
                     continue
                 m = re.match(r'//@droparm\s+(.+?)\s*$', s2)
                 if m:
